@@ -284,6 +284,7 @@ impl From<Vec<isize>> for FiniteDomain {
             panic!("Cannot construct empty finite domain");
         }
         v.sort();
+        v.dedup();
         FiniteDomain::Sparse(v)
     }
 }
